@@ -123,6 +123,7 @@ structure Q (ρ : IdRel) (t u : LSt) : Prop where
   sigs : KR ρ (SigR ρ) t.sigs u.sigs
   ownedT : F2 ρ t.ownedT u.ownedT
   ownedK : KR ρ (OR ρ) t.ownedK u.ownedK
+  ownedG : KR ρ (fun a b : Nat => a = b) t.ownedG u.ownedG
   pb : PB ρ t.next u.next
   depth : u.depth = t.depth
   steps : u.steps = t.steps
